@@ -25,7 +25,7 @@ ASSUMPTIONS = [
     "structural rulebook signature covers patterns, flags, logic/diff_logic/apply_logic qualified names, params, nesting",
 ]
 EXHAUSTIVE = {"quick": True, "thorough": True}
-FLOORS = {"quick": {"entries": 168, "rulebooks_loaded": 100, "registry_orders": 100, "cross_process_signatures": 20, "shared_provider_loads": 200, "shared_provider_loads_of_respelled_models": 300, "spellings_that_are_other_hardware": 20},
+FLOORS = {"quick": {"entries": 168, "rulebooks_loaded": 100, "registry_orders": 100, "cross_process_signatures": 20, "shared_provider_loads": 200, "shared_provider_loads_of_respelled_models": 300, "spellings_that_are_other_hardware": 20, "models_in_two_families_of_different_chains": 40, "answers_of_a_growing_registry": 3000},
           "thorough": {"entries": 168, "rulebooks_loaded": 100, "registry_orders": 100, "cross_process_signatures": 20}}
 SOFTS = ["", "Cumulus Linux 4.4", "VRP V200R005"]
 
@@ -168,6 +168,22 @@ def check_model(model, soft, key, acc, db, deep=True):
         v = r.match(hw, None)
         got_names.add(v.NAME if v else None)
         acc.count("registry_orders")
+    # vendors (plugins) may be registered after the registry has already answered: every answer reflects what is registered by then
+    for order in (orders[0], orders[-1]):
+        r = Registry()
+        regd = []
+        for c in order:
+            r.register(c)
+            regd.append(c.NAME)
+            v = r.match(hw, None)
+            sub = [x for x in cands if x[1] in regd]
+            best_now = max((x[0] for x in sub), default=None)
+            want_now = sorted({x[1] for x in sub if x[0] == best_now})
+            acc.count("answers_of_a_growing_registry")
+            if not tie and (v.NAME if v else None) not in (want_now or [None]):
+                acc.violation("C18/registry-answer-ignores-later-registration", "a registry that answered before all vendors were registered keeps answering from the earlier state",
+                              dict(w, registered=list(regd), got=v.NAME if v else None, expected=want_now))
+                break
     prod = hw.vendor
     nontrivial = (key or "").count(".") >= 1 or len(cands) > 1
     acc.case([model, soft], nontrivial=nontrivial)
@@ -229,6 +245,72 @@ def models_for(db, tier, rng):
     return out
 
 
+def one_vendor_line(model):
+    """False for artificial strings that sit in the product lines of two different vendors at once (a Nexus that is also an IOS-XR box):
+    no such hardware exists and which vendor serves it is undefined"""
+    from annet.annlib.netdev.views.hardware import HardwareView
+    from annet.vendors import registry_connector
+    hw = HardwareView(model, "")
+    cands = []
+    for v in registry_connector.get().vendors.values():
+        for expr in v.match():
+            try:
+                if hw.match(expr):
+                    cands.append((expr.count("."), v.NAME))
+            except AttributeError:
+                pass
+    if not cands:
+        return True
+    best = max(c[0] for c in cands)
+    return len({c[1] for c in cands if c[0] == best}) == 1
+
+
+def cross_models(db, work, rng, limit):
+    """model strings for which two families that are not on one chain hold together (a product line and a suffix family such as
+    `Huawei S5700-28P-SI`): the model of one entry extended by the piece the other entry's own regex asks for"""
+    def chain(key):
+        parts = key.split(".")
+        return [db[".".join(parts[:i])] for i in range(1, len(parts) + 1)]
+    by_root = {}
+    for key, mdl in work:
+        if mdl:
+            by_root.setdefault(key.split(".")[0], []).append((key, mdl))
+    out, seen = [], set()
+
+    def try_pair(a, b):
+        (ka, ma), (kb, mb) = a, b
+        piece = R.sample_regex(db[kb].lstrip("^"), rng)
+        if piece is None:
+            return False
+        for cand in (ma + piece, ma + "-28P" + piece, ma + " " + piece.strip()):
+            if cand not in seen and all(re.search(rx, cand) for rx in chain(ka) + chain(kb)) and one_vendor_line(cand):
+                seen.add(cand)
+                out.append((None, cand))
+                return True
+        return False
+    for root, items in sorted(by_root.items()):
+        items = [it for it in items if "." in it[0]]
+        fams = {}
+        for it in items:
+            fams.setdefault(it[0].split(".")[1], []).append(it)
+        # every ordered pair of second-level families of the vendor once (product line x suffix family, ...), then random pairs
+        for fa in sorted(fams):
+            for fb in sorted(fams):
+                if fa != fb:
+                    for _ in range(3):
+                        if try_pair(rng.choice(fams[fa]), rng.choice(fams[fb])):
+                            break
+        pairs = [(a, b) for a in items for b in items if a[0] != b[0] and not a[0].startswith(b[0] + ".") and not b[0].startswith(a[0] + ".")]
+        rng.shuffle(pairs)
+        n = 0
+        for a, b in pairs:
+            if n >= limit:
+                break
+            if try_pair(a, b):
+                n += 1
+    return out
+
+
 def run_shard(spec, acc):
     from vf import corpus
     from annet.vendors import registry_connector
@@ -242,6 +324,8 @@ def run_shard(spec, acc):
     reg = registry_connector.get()
     canon = [(None, v.hardware.model) for v in reg.vendors.values()]
     extra = [(None, mdl) for mdl in sum(corpus.RULE_HW.values(), []) + list(corpus.STUB_HW.values())]
+    cross = cross_models(db, work, random.Random("C18/cross/%s" % spec["seed"]), 10 if spec["tier"] == "quick" else 80)
+    extra += cross
     if spec["mode"] == "shared":
         # one provider (and the production provider behind annet.rulebook.get_rulebook) serves many models of one
         # vendor in a shuffled order: every rulebook must equal the one a fresh provider gives for that model alone
@@ -313,6 +397,8 @@ def run_shard(spec, acc):
             continue
         if key is not None:
             acc.count("entries")
+        elif (key, mdl) in cross:
+            acc.count("models_in_two_families_of_different_chains")
         if mdl is None:
             acc.count("unsynthesised_entries")
             continue
